@@ -550,6 +550,46 @@ def readRecord (f : Frame) (shapes : List Shape) (pos : Nat) (dyn : Bool) (bs : 
       let k := if dyn then f.lvlBytes else 0
       if r.length < k then none else some (bs.take f.header, vs, r.take k, r.drop k)
 
+/-! ### histories of statements on one thread's size cache: logged and dropped statements -/
+
+/-- what happened to an earlier statement of the thread between its two passes -/
+inductive StmtOp where
+  /-- size pass, `prepare_write` granted, encode pass -/
+  | logged (args : List Arg)
+  /-- size pass only: `prepare_write` refused (`BoundedDropping` / `UnboundedDropping` queue full: the statement is
+      dropped and `log_statement` returns `false`) or `_handle_full_queue` threw (record over
+      `unbounded_queue_max_capacity`) — the encode pass never runs -/
+  | dropped (args : List Arg)
+  deriving Repr
+
+def StmtOp.args : StmtOp → List Arg
+  | .logged a => a
+  | .dropped a => a
+
+/-- the size pass with the `clear()` at its start (`clearAtStart = true`: the code, what the extraction looks for) or
+    without it (`false`: the alternative placement "clear after the encode pass", kept only to show what goes wrong) -/
+def sizeStatementAt (clearAtStart : Bool) (c : Cache) (args : List Arg) : Nat × Cache :=
+  sizePassL (if clearAtStart && args.any needsClear then c.clear else c) args
+
+/-- the size cache after one earlier statement. With the `clear()` at the start of the size pass the encode pass
+    (which takes the cache by `const&`) changes nothing, so a dropped statement and a logged one leave the same cache;
+    with the `clear()` after the encode pass a dropped statement leaves its lengths behind. -/
+def StmtOp.apply (clearAtStart : Bool) (c : Cache) : StmtOp → Cache
+  | .logged args =>
+    let c1 := (sizeStatementAt clearAtStart c args).2
+    if !clearAtStart && args.any needsClear then c1.clear else c1
+  | .dropped args => (sizeStatementAt clearAtStart c args).2
+
+/-- the size cache a thread's history of statements leaves behind -/
+def cacheAfter (clearAtStart : Bool) (c : Cache) (ops : List StmtOp) : Cache :=
+  ops.foldl (StmtOp.apply clearAtStart) c
+
+/-- bytes reserved and bytes the encode pass writes (`none` = it faults) for a statement issued after `ops` -/
+def passesAfter (clearAtStart : Bool) (old : Mem) (c : Cache) (ops : List StmtOp) (pos : Nat) (args : List Arg) :
+    Nat × Option Bytes :=
+  let r := sizeStatementAt clearAtStart (cacheAfter clearAtStart c ops) args
+  (r.1, (encodeL old r.2 0 pos args).map (·.1))
+
 /-! ### sanitiser -/
 
 /-- `check_printable_char` of `BackendOptions`: `(c >= lo && c <= hi) || c == extra…` (on `char`; for the default
@@ -640,7 +680,8 @@ end
 structure Queue where
   /-- capacity of the current node -/
   cap : Nat
-  /-- bytes the producer believes are in use (`writer_pos − reader_pos_cache`) -/
+  /-- bytes the producer must assume in use: `_writer_pos − _atomic_reader_pos` (what `prepare_write` sees after its
+      reload of the reader position the consumer last published) -/
   used : Nat
   /-- `unbounded_queue_max_capacity`; `0` = bounded queue (never grows) -/
   maxCap : Nat
@@ -677,5 +718,40 @@ def logCall (f : Frame) (fe : Frontend) (args : List Arg) (dyn : Bool) : List Ev
   let rq := fe.queue.reserve total
   (e0 ++ eCache ++ rq.1 ++ argEventsL args,
    { registered := true, cache := sz.2, queue := rq.2.getD fe.queue })
+
+/-! ### the thread's queue between log calls: backend passes (C11) -/
+
+/-- `_bytes_per_batch`: the consumer publishes its position after this many consumed bytes -/
+def batchBytes (cap pct : Nat) : Nat := cap * pct / 100
+
+/-- one backend pass over the thread's queue that consumes *everything* the producer committed
+    (`_read_and_decode_frontend_queue` until `prepare_read` returns null) followed by its single `commit_read()`.
+    `Queue.used` counts from the reader position the consumer last *published* (what the producer sees after its
+    reload in `prepare_write`), so the pass frees the bytes only if `commit_read` publishes: always when
+    `publishOnDrain` (the clause `_reader_pos == _writer_pos_cache` of `commit_read`), otherwise only when the
+    unpublished bytes reach the batch threshold. -/
+def Queue.drain (publishOnDrain : Bool) (pct : Nat) (q : Queue) : Queue :=
+  if publishOnDrain || decide (batchBytes q.cap pct ≤ q.used) then { q with used := 0 } else q
+
+/-- what happens on one thread between two observations: a log call, or a backend pass that drains its queue -/
+inductive FOp where
+  | log (args : List Arg) (dyn : Bool)
+  | drain
+  deriving Repr
+
+def Frontend.step (f : Frame) (publishOnDrain : Bool) (pct : Nat) (fe : Frontend) : FOp → Frontend
+  | .log args dyn => (logCall f fe args dyn).2
+  | .drain => { fe with queue := fe.queue.drain publishOnDrain pct }
+
+def Frontend.run (f : Frame) (publishOnDrain : Bool) (pct : Nat) (fe : Frontend) (ops : List FOp) : Frontend :=
+  ops.foldl (Frontend.step f publishOnDrain pct) fe
+
+/-- the documented budget of the size cache (C11: "up to twelve variable-length C-string arguments per statement"):
+    besides C strings, `char[N]` and direct-format arguments only `std::forward_list` takes a slot (its element count,
+    which it cannot ask the container for). `specKind` is the container table the budget is stated for; the obligation
+    `alloc_count_slots` shows that it is the extracted one. -/
+def specPushCount (name : String) : Bool := name == "forward_list"
+
+def specKind (name : String) (ki : KindInfo) : KindInfo := { ki with pushCount := specPushCount name }
 
 end Codec
